@@ -34,17 +34,45 @@ def run_case(args):
     return {"rc": rc, "n": n, "problems": problems, "stats": stats, "stdout": out[-1500:]}
 
 
+def fresh_script_at(sc, k):
+    """the assertions active at check #k of a one-command-per-line script, as a script without history"""
+    head, stack, n = [], [[]], -1
+    for l in sc.strip().split("\n"):
+        if l.startswith(("(set-option", "(set-logic", "(declare-", "(define-")):
+            head.append(l)
+        elif l.startswith("(push"):
+            stack.append([])
+        elif l.startswith("(pop") and len(stack) > 1:
+            stack.pop()
+        elif l.startswith("(assert"):
+            stack[-1].append(l)
+        elif l == "(check-sat)":
+            n += 1
+            if n == k:
+                return "\n".join(head + [a for fr in stack for a in fr] + ["(check-sat)", "(get-model)"]) + "\n"
+    return None
+
+
 def classify(problem, case):
     """match key for known findings: identified by the history shape, not by the symptom alone"""
     sc = case["script"]
+    if ("QF_UFLIA" in sc or "QF_UFLRA" in sc) and "(pop" in sc and "evaluates to" in problem.get("what", "") and "check" in problem:
+        # does the defect need the history? the same assertions in a fresh solver must give a valid model
+        fs = fresh_script_at(sc, int(problem["check"]))
+        if fs is not None:
+            r = run_case(({"script": fs}, common.opensmt_bin("hooks"), 10))
+            if r["n"] == 1 and not r["problems"]:
+                return "ufla-model-stale-term-after-pop"
     first_check = sc.find("(check-sat)")
     if "(set-option :incremental false)" in sc and first_check >= 0 and "(assert" in sc[first_check:] \
             and "evaluates to" in problem.get("what", ""):
         return "nonincremental-assert-after-check"
     if "QF_IDL" in sc and "(get-model)" in sc and "SafeInt" in (problem.get("stderr", "") + problem.get("output", "")):
         return "idl-model-safeint-underflow"
-    if re.search(r"\(declare-fun \S+ \([^)]*\bBool\b[^)]*\)", sc) and ("evaluates to" in problem.get("what", "") or
-                                                                       "get-value" in problem.get("what", "")):
+    # functions with a Boolean argument that the assertions actually apply
+    used = [m.group(1) for m in re.finditer(r"\(declare-fun (\S+) \([^)]*\bBool\b[^)]*\)", sc)
+            if any(f"({m.group(1)} " in l for l in sc.split("\n") if l.startswith("(assert"))]
+    if used and ("evaluates to" in problem.get("what", "") or "get-value" in problem.get("what", "")):
         return "bool-arg-uf-model"
     return None
 
